@@ -34,6 +34,8 @@ def run(v, workdir, replay):
     v.need("filtered_requests_with_a_repeated_id", 10)
     v.need("tampered_artefacts", 500)
     v.need("duplicate_payload_blocks", 3)
+    v.need("busy_blocks_over_20_submissions_interleaved_over_rollups", 8)
+    v.need("busy_blocks_over_48_submissions", 2)
     for c in ("payload_byte_flipped", "payload_dropped", "payload_appended", "payloads_reordered", "payload_moved_to_other_rollup", "rollup_ids_relabelled",
               "proof_index_changed", "proof_path_changed", "header_rollup_root_changed", "rollup_dropped", "rollup_invented",
               "celestia_payload_extended", "celestia_rollup_relabelled", "celestia_other_block_hash", "filtered_payload_extended", "filtered_rollup_relabelled",
@@ -110,6 +112,11 @@ def check(v, hists):
             if dup:
                 v.saw("duplicate_payload_blocks")
             v.saw("blocks_with_rollup_data" if expected else "blocks_without_rollup_data")
+            nsub = sum(1 for x in expected.values() for i in x if i[0] == "seq")
+            if nsub > 20 and sum(1 for x in expected.values() if sum(1 for i in x if i[0] == "seq") >= 2) >= 2:
+                v.saw("busy_blocks_over_20_submissions_interleaved_over_rollups")
+            if nsub > 48:
+                v.saw("busy_blocks_over_48_submissions")
             wit = {"hist": list(h.key), "height": height, "expected": {r: [list(i) for i in x] for r, x in expected.items()}}
 
             def compare(view, got, where, exp=None):
